@@ -1,12 +1,20 @@
 #!/bin/sh
-# Extract the model to OCaml and build the line driver.  cwd-independent.
+# Extract Extract/Drv_<group>.v to OCaml (ExtrOcamlBasic only) and build the line driver.
 set -e
+G=${1:-aliquot}
 V=$(cd "$(dirname "$0")/.." && pwd)
-B=$V/_build/extract
+B=$V/_build/extract/$G
 mkdir -p "$B"
 cd "$B"
-# extraction (not part of the .vo build: it only writes model.ml)
-( cd "$V/coq" && coqc -Q . PyTRS Extract/Extract.v >/dev/null && mv -f model.ml model.mli "$B/" && rm -f Extract/Extract.vo Extract/Extract.glob Extract/.Extract.aux Extract/Extract.vok Extract/Extract.vos )
+cat > extract_$G.v <<EOT
+From Coq Require Import Extraction ExtrOcamlBasic.
+From PyTRS Require Import Extract.Drv_$G.
+Extraction "model.ml" dispatch.
+EOT
+coqc -Q "$V/coq" PyTRS extract_$G.v >/dev/null
 cp "$V/tools/driver/driver.ml" .
-ocamlfind ocamlopt -w -a -o driver model.mli model.ml driver.ml
+if [ ! -f driver ] || ! cmp -s model.ml model.ml.prev || ! cmp -s driver.ml driver.ml.prev; then
+  ocamlfind ocamlopt -O3 -w -a -o driver model.mli model.ml driver.ml 2>/dev/null || ocamlfind ocamlopt -w -a -o driver model.mli model.ml driver.ml
+  cp model.ml model.ml.prev; cp driver.ml driver.ml.prev
+fi
 echo "driver built: $B/driver"
